@@ -102,7 +102,7 @@ add("trace_newton_163", dstu_ctx(ds) + " IN \\A k \\in {0, 1, 2, 80, 162} : GTr(
 add("trace_newton_small", "\\A f \\in {<<7, 1, 0, 0>>, <<9, 4, 0, 0>>, <<8, 4, 3, 1>>, <<13, 4, 3, 1>>} : LET F == DstuField(f) IN \\A x \\in 0..(2 ^ f[1] - 1) : (f[1] > 9 /\\ x % 17 # 3) \\/ (GTr(<<x>>, F) = GTrDef(<<x>>, F))")
 add("gf2_7_trace", "LET F == DstuField(<<7, 1, 0, 0>>) IN Cardinality({x \\in 0..127 : GTr(<<x>>, F) = 0}) = 64 /\\ \\A x \\in 0..127 : GTr(GSqr(<<x>>, F), F) = GTr(<<x>>, F) /\\ GTr(PAdd(GSqr(<<x>>, F), <<x>>), F) = 0")
 # a complete tiny binary curve: the group law closes and every point has order dividing the group order
-add("e2_ld_equals_affine", "LET C == [F |-> DstuField(<<5, 2, 0, 0>>), A |-> 1, B |-> <<1>>] C0 == [F |-> DstuField(<<7, 1, 0, 0>>), A |-> 0, B |-> <<5>>] IN \\A cv \\in {C, C0} : LET mm == PDeg(cv.F) pts == {xy \\in (0..(2 ^ mm - 1)) \\X (0..(2 ^ mm - 1)) : E2OnCurve(cv, PNorm(<<xy[1]>>), PNorm(<<xy[2]>>))} IN \\A xy \\in pts : \\A k \\in 0..70 : LET P == <<PNorm(<<xy[1]>>), PNorm(<<xy[2]>>)>> IN E2Mul(cv, OfInt(k), P) = E2MulA(cv, OfInt(k), P)")
+add("e2_ld_equals_affine", "LET C == [F |-> DstuField(<<5, 2, 0, 0>>), A |-> 1, B |-> <<1>>] C0 == [F |-> DstuField(<<5, 2, 0, 0>>), A |-> 0, B |-> <<5>>] IN \\A cv \\in {C, C0} : LET mm == PDeg(cv.F) pts == {xy \\in (0..(2 ^ mm - 1)) \\X (0..(2 ^ mm - 1)) : E2OnCurve(cv, PNorm(<<xy[1]>>), PNorm(<<xy[2]>>))} IN \\A xy \\in pts : \\A k \\in 0..24 : LET P == <<PNorm(<<xy[1]>>), PNorm(<<xy[2]>>)>> IN E2Mul(cv, OfInt(k), P) = E2MulA(cv, OfInt(k), P)")
 add("e2_ld_B1", dstu_ctx(ds) + " IN E2Mul(C, OfInt(1000003), P) = E2MulA(C, OfInt(1000003), P)")
 add("e2_tiny_group", "LET C == [F |-> DstuField(<<5, 2, 0, 0>>), A |-> 1, B |-> <<1>>] pts == {xy \\in (0..31) \\X (0..31) : E2OnCurve(C, PNorm(<<xy[1]>>), PNorm(<<xy[2]>>))} N == Cardinality(pts) + 1 IN N >= 22 /\\ N <= 44 /\\ \\A xy \\in pts : LET P == <<PNorm(<<xy[1]>>), PNorm(<<xy[2]>>)>> IN E2IsO(E2Mul(C, OfInt(N), P)) /\\ LET D == E2Dbl(C, P) IN E2IsO(D) \\/ E2OnCurve(C, D[1], D[2])")
 
